@@ -14,6 +14,8 @@ Inductive kw : Type :=
 | K_counting | K_watermark | K_end | K_of | K_after | K_delay
 | K_and | K_or | K_not | K_like | K_in | K_is | K_null | K_true | K_false
 | K_interval | K_descriptor | K_table | K_asc | K_desc | K_convert
+| K_with | K_having | K_exists | K_between | K_case | K_when | K_then | K_else | K_inner | K_cross | K_regexp
+| P_tilde | P_tildestar | P_ntilde | P_ntildestar   (* ~  ~*  !~  !~* *)
 | P_lparen | P_rparen | P_comma | P_dot | P_star | P_plus | P_minus | P_slash
 | P_eq | P_lt | P_gt | P_le | P_ge | P_ne | P_nseq
 | P_rarrow      (* =>  RIGHTARROW *)
@@ -30,6 +32,10 @@ Inductive token : Type :=
 | TStr (s : ident)       (* STRING *)
 | TInt (s : ident)       (* INTEGRAL *)
 | TFloat (s : ident)     (* FLOAT *)
+| THex (s : ident)       (* HEX  x'..' *)
+| TBit (s : ident)       (* BIT_LITERAL  b'..' *)
+| THexNum (s : ident)    (* HEXNUM  0x.. *)
+| TArg (s : ident)       (* VALUE_ARG  :v1 (also what a '?' scans to) *)
 | TOther (n : Z)         (* any other token type of the real tokenizer (outside the fragment) *)
 | TBad.                  (* emitted by the template interpreter for a field the model does not know *)
 
@@ -42,7 +48,8 @@ Definition ident_eqb (a b : ident) : bool := list_eqb Z.eqb a b.
 Definition token_eqb (a b : token) : bool :=
   match a, b with
   | TK x, TK y => kw_eqb x y
-  | TId x, TId y | TStr x, TStr y | TInt x, TInt y | TFloat x, TFloat y => ident_eqb x y
+  | TId x, TId y | TStr x, TStr y | TInt x, TInt y | TFloat x, TFloat y
+  | THex x, THex y | TBit x, TBit y | THexNum x, THexNum y | TArg x, TArg y => ident_eqb x y
   | TOther x, TOther y => x =? y
   | TBad, TBad => true
   | _, _ => false
@@ -54,7 +61,8 @@ Inductive piece : Type :=
 | PL (toks : list token)                (* literal text between the % verbs, tokenised by the real Tokenizer at generation time *)
 | PV (field : string)                   (* %v applied to node.<field> ("Self" = the node itself / a conversion of it) *)
 | PS (field : string)                   (* %s applied to node.<field> *)
-| PIf (cond : string) (body els : list piece).   (* if <cond> { Myprintf… } [else { Myprintf… }]; cond = Go source text *)
+| PIf (cond : string) (body els : list piece)    (* if <cond> { Myprintf… } [else { Myprintf… }]; cond = Go source text *)
+| PEach (field : string) (body : list piece).    (* for _, item := range node.<field> { Myprintf(…, item) }; "Item" = the loop variable *)
 Definition template := list piece.
 
 (* list-shaped Format methods:  prefix := <first>; for … { Myprintf("%s%v", prefix, n); prefix = <sep> } *)
@@ -79,7 +87,7 @@ Fixpoint interp_flat (b : list piece) (e : env) : list token :=
   | [] => []
   | PL t :: b' => t ++ interp_flat b' e
   | PV g :: b' | PS g :: b' => field_toks e g ++ interp_flat b' e
-  | PIf _ _ _ :: b' => TBad :: interp_flat b' e      (* nested conditionals are not part of the language *)
+  | PIf _ _ _ :: b' | PEach _ _ :: b' => TBad :: interp_flat b' e      (* nested conditionals / loops are not part of the language *)
   end.
 
 Fixpoint interp_pieces (ps : list piece) (e : env) : list token :=
@@ -93,6 +101,11 @@ Fixpoint interp_pieces (ps : list piece) (e : env) : list token :=
            match lookup c e with
            | Some v => if fv_present v then interp_flat body e else interp_flat els e
            | None => [TBad]          (* a condition the model does not know *)
+           end
+       | PEach f body =>             (* the environment holds the concatenation of the items' texts; only "%v" per item is modelled *)
+           match body with
+           | [PV g] => if String.eqb g "Item" then field_toks e f else [TBad]
+           | _ => [TBad]
            end
        end) ++ interp_pieces ps' e
   end.
